@@ -1,6 +1,7 @@
 package main
 
 import (
+	"bytes"
 	"fmt"
 	"io"
 	"strings"
@@ -173,7 +174,17 @@ func execRom(c romCase) (out []string, oracle string) {
 					p[j] = prng.Hash(uint64(o.vs), uint32(j))
 				}
 				before := append([]byte{}, contents...)
-				n, err := cs.wr.Write(p)
+				var n int
+				var err error
+				if o.vs%3 == 1 && len(p) > 0 {
+					// the writer is an io.Writer: it is also driven through the standard library (io.Copy from a source
+					// without WriteTo performs exactly one Write here; an optional ReaderFrom on the writer is honoured)
+					var n64 int64
+					n64, err = io.Copy(cs.wr, io.LimitReader(bytes.NewReader(p), int64(len(p))))
+					n = int(n64)
+				} else {
+					n, err = cs.wr.Write(p)
+				}
 				out[i] = fmt.Sprintf("%x %s", n, errName(err))
 				if !cs.haveWin {
 					if n != 0 || err != io.ErrUnexpectedEOF {
@@ -426,7 +437,7 @@ func runRom() {
 	rep.Distinct = int64(len(distinct))
 	rep.CountN("cases", int64(len(cases)))
 	rep.Rule = "random reader/writer histories on images of 32 KiB..256 KiB (thorough: up to 4 MiB): offsets below $8000, at $8000, within 6 bytes of the bank end; " +
-		"half of the histories interleave the operations of several live readers / writers of the same ROM; read/write lengths 0, remaining-1, remaining, remaining+1..3 and small; write-then-read-back; banks outside the image; whole image compared after every write. " +
+		"a third of the writes go through io.Copy; half of the histories interleave the operations of several live readers / writers of the same ROM; read/write lengths 0, remaining-1, remaining, remaining+1..3 and small; write-then-read-back; banks outside the image; whole image compared after every write. " +
 		"evaluations = operations; distinct_nontrivial = distinct (op kind, reply prefix) sequences"
 	rep.Emit()
 }
